@@ -143,7 +143,22 @@ def mk_child_text(s: str):
     library stores str(number): falsy numbers 0, 0.0, -0.0 included)"""
     if s in NUMERIC and str(NUMERIC[s]) == s and (len(s) + ord(s[-1])) % 2 == 0:
         return NUMERIC[s]
+    if s and _pick(s) % 11 == 3:
+        n = StrInt(len(s))
+        n._s = s
+        return n
     return mk_text(s)
+
+
+class StrInt(int):
+    """an int subclass (think enum.IntEnum with a custom __str__) whose text is arbitrary: the
+    library stores str(number), which is then escaped like any other text"""
+    _s = ""
+
+    def __str__(self) -> str:
+        return self._s
+
+    __repr__ = __str__
 
 
 def mk_html(s: str):
@@ -153,6 +168,10 @@ def mk_html(s: str):
 def mk_repr(s: str):
     k = _pick(s) % 4
     return ReprObjWs(s) if k == 0 else ReprObjHtml(s) if (k == 1 and REPR_RETURNS_HTML) else ReprObj(s)
+
+
+class TagListSub(TagList):
+    """a user subclass of TagList (a tagify() may return one: it is spliced like a TagList)"""
 
 
 class CustomObj:
@@ -174,7 +193,8 @@ class CustomObj:
                 return _copy.copy(e)
             return e
         if self.as_list:
-            return TagList(*[fresh(e) for e in self.exp])
+            cls = TagListSub if len(self.exp) % 3 == 2 else TagList
+            return cls(*[fresh(e) for e in self.exp])
         return fresh(self.exp[0])
 
 
@@ -221,7 +241,15 @@ def build(d: Any, share: bool = False, _memo: dict | None = None) -> Any:
         return htmltools.HTMLDependency(**d[1])
     elif k == "G":
         _, name, ws, attrs, kids = d
-        o = Tag(name, *[mk_child_text(x[1]) if x[0] == "T" else build(x, share, _memo) for x in kids], _add_ws=ws)
+        kb = [mk_child_text(x[1]) if x[0] == "T" else build(x, share, _memo) for x in kids]
+        if _pick(name + str(len(kids))) % 9 == 4:
+            # built under another name / flag and then re-assigned (public attributes): what counts is
+            # what the tag IS when it is rendered, not what it was when constructed
+            o = Tag("script" if name not in ("script", "style") else "div", *kb, _add_ws=not ws)
+            o.name = name
+            o.add_ws = ws
+        else:
+            o = Tag(name, *kb, _add_ws=ws)
         for key, (m, v) in attrs:
             # stored as is (bypassing name normalisation, which is C15's subject)
             dict.__setitem__(o.attrs, key, mk_html(v) if m == "H" else mk_text(v))
